@@ -154,6 +154,27 @@ def go_build(name, work, tags="verif"):
     rc, o, dt = sh(["go", "build", "-tags", tags, "-o", out, "./cmd/" + name], cwd=GO, env=GOENV, timeout=1800)
     return rc, o, out
 
+def check_source_tie(tie):
+    """the text between `// VERIF-COPY-BEGIN <name>` and `// VERIF-COPY-END` in the hook file must
+    occur verbatim (modulo whitespace) inside function <func> of the production file."""
+    import re as _re
+    norm = lambda t: _re.sub(r"\s+", " ", t).strip()
+    try:
+        hook = open(os.path.join(REPO, tie["hook_file"])).read()
+        prod = open(os.path.join(REPO, tie["file"])).read()
+    except OSError as e:
+        return "cannot read: %s" % e
+    m = _re.search(r"// VERIF-COPY-BEGIN %s\n(.*?)// VERIF-COPY-END" % _re.escape(tie["name"]), hook, _re.S)
+    if not m:
+        return "no VERIF-COPY block named %s in %s" % (tie["name"], tie["hook_file"])
+    f = _re.search(r"\nfunc \([^)]*\) %s\(.*?\n}\n" % _re.escape(tie["func"]), prod, _re.S)
+    if not f:
+        return "function %s not found in %s" % (tie["func"], tie["file"])
+    if norm(m.group(1)) not in norm(f.group(0)):
+        return ("the statements copied into the verification hook are no longer the statements of %s in %s: "
+                "the stepping shim does not execute what the production start-up executes" % (tie["func"], tie["file"]))
+    return None
+
 def run_harness(binpath, work, tag, seed, tier, replay=None, timeout=1800, extra_args=None):
     ops = os.path.join(work, f"{tag}.ops")
     impl = os.path.join(work, f"{tag}.impl")
@@ -419,6 +440,13 @@ def main():
             rep.violation({"kind": "translator-failed", "what": "cmd/extract could not regenerate the facts "
                            "this property's theorems are stated over (construct not recognised or source moved)",
                            "facts": facts, "output": o[-4000:]}, no_input=True)
+
+    # ---- 1b. source ties: guarded copies of production statements used by the stepping shim
+    for tie in spec.get("source_ties", []):
+        problem = check_source_tie(tie)
+        cov["extra"].setdefault("source_ties", []).append({"tie": tie["name"], "ok": problem is None})
+        if problem:
+            rep.violation({"kind": "source-tie-broken", "tie": tie, "what": problem}, no_input=True)
 
     # ---- 2. proofs
     module = spec["props_module"]
